@@ -149,8 +149,11 @@ struct RoundTrip
       catch (const std::exception& ex) { std::cout << ' ' << key << "=EXC:" << hex(std::string(ex.what())); }
     }
     // every truncation point must throw (never succeed, never read past the input: ASan)
+    // (every point for encodings up to 2 KiB; for longer ones the first and last 256 points and every k-th in between, so that
+    // the quadratic loop stays bounded: about 1500 points)
     std::size_t ok = 0;
-    for (std::size_t n = 0; n < bytes.size(); ++n)
+    const std::size_t stride = bytes.size() <= 2048 ? 1 : bytes.size() / 1024;
+    for (std::size_t n = 0; n < bytes.size(); n += (n < 256 || n + 256 >= bytes.size()) ? 1 : stride)
     {
       // copy so that ASan sees reads past the truncated buffer
       std::vector<char> cut(bytes.begin(), bytes.begin() + std::ptrdiff_t(n));
